@@ -157,8 +157,11 @@ func check(c core.Case, out []string) *core.Failure {
 		if o == "panic" {
 			return bad(t[0]+"-panic", "a panic is never allowed")
 		}
-		if o == "input-modified" {
-			return bad(t[0]+"-side-effect", "the caller's input must not be modified")
+		if strings.HasPrefix(o, "input-modified") {
+			return bad(t[0]+"-side-effect", "the caller's memory (secret, additional data, plaintext/message windows of the arena, the bytes in their spare capacity, the canaries) must not be modified")
+		}
+		if strings.HasPrefix(o, "result-changed") {
+			return bad(t[0]+"-result-unstable", "a slice returned by an earlier call must not change when the library is called again")
 		}
 		if o == "bad-op" {
 			continue
